@@ -97,6 +97,8 @@ struct Problem {
     /// memory layout of the training records: 0 standard, 1 column-major, 2 rows stored back to
     /// front behind a negative row stride
     layout: u8,
+    /// the parameter set was configured for another problem kind before the final setter call
+    history: bool,
 }
 
 struct Published {
@@ -177,9 +179,17 @@ fn run_fit<F: Fl>(pb: &Problem, want_pr: bool) -> Result<Published, String> {
                 ($t:ty) => {{
                     let p = Svm::<F, $t>::params().eps(eps).shrinking(pb.shrinking);
                     let p = apply_kernel(p, pb.kern);
+                    // every other parameter set has a history: it was configured for the other
+                    // problem kind first - the last setter decides
                     match pb.kind {
-                        Kind::CSvc { cpos, cneg } => p.pos_neg_weights(F::cast(cpos), F::cast(cneg)),
-                        Kind::NuSvc { nu } => p.nu_weight(F::cast(nu)),
+                        Kind::CSvc { cpos, cneg } => {
+                            let p = if pb.history { p.nu_weight(F::cast(0.25)) } else { p };
+                            p.pos_neg_weights(F::cast(cpos), F::cast(cneg))
+                        }
+                        Kind::NuSvc { nu } => {
+                            let p = if pb.history { p.pos_neg_weights(F::cast(3.0), F::cast(0.5)) } else { p };
+                            p.nu_weight(F::cast(nu))
+                        }
                         _ => unreachable!(),
                     }
                 }};
@@ -224,8 +234,14 @@ fn run_fit<F: Fl>(pb: &Problem, want_pr: bool) -> Result<Published, String> {
             let p = Svm::<F, F>::params().eps(eps).shrinking(pb.shrinking);
             let p = apply_kernel(p, pb.kern);
             let p = match pb.kind {
-                Kind::EpsSvr { c, tube } => p.c_svr(F::cast(c), Some(F::cast(tube))),
-                Kind::NuSvr { nu, c } => p.nu_svr(F::cast(nu), Some(F::cast(c))),
+                Kind::EpsSvr { c, tube } => {
+                    let p = if pb.history { p.nu_svr(F::cast(0.4), Some(F::cast(2.0))) } else { p };
+                    p.c_svr(F::cast(c), Some(F::cast(tube)))
+                }
+                Kind::NuSvr { nu, c } => {
+                    let p = if pb.history { p.c_svr(F::cast(2.0), Some(F::cast(0.3))) } else { p };
+                    p.nu_svr(F::cast(nu), Some(F::cast(c)))
+                }
                 _ => unreachable!(),
             };
             let mut m = F::fit_reg(p, &ds).map_err(|e| format!("fit error: {e}"))?;
@@ -575,7 +591,9 @@ fn gen_kernel(rng: &mut Rng, d: usize) -> Kern {
     match rng.gen_range(0..3) {
         0 => Kern::Linear,
         1 => Kern::Gauss(gen::log_uniform(rng, 0.3, 30.0) * d as f64),
-        _ => Kern::Poly(*gen::pick(rng, &[0.0, 1.0, 2.0]), *gen::pick(rng, &[2.0, 3.0])),
+        // degree 1 with a constant is an affine kernel: "any parameters" includes it, and it sits
+        // right next to the linear special case
+        _ => Kern::Poly(*gen::pick(rng, &[0.0, 1.0, 2.0]), *gen::pick(rng, &[2.0, 3.0, 2.0, 3.0, 1.0])),
     }
 }
 
@@ -700,7 +718,9 @@ fn one_case(c: &mut Case, which: usize, shrinking: bool, f32mode: bool, nmax: us
     let want_pr = which <= 1 && c.rng.gen_bool(0.3);
     let layout = [0u8, 0, 1, 2][c.rng.gen_range(0..4)];
     c.note("records_layout", json!(["standard", "column-major", "rows-reversed"][layout as usize]));
-    let pb = Problem { x, yb, yr, fresh, kern, kind, eps, shrinking, layout };
+    let history = c.rng.gen_bool(0.5);
+    c.note("setter_history", json!(history));
+    let pb = Problem { x, yb, yr, fresh, kern, kind, eps, shrinking, layout, history };
     c.note("kind", json!(format!("{:?}", pb.kind)));
     c.note("kernel", json!(format!("{:?}", pb.kern)));
     c.note("n", json!(n));
